@@ -24,6 +24,8 @@ VERUS_UNITS = {
                     props=['C01', 'C06']),
     'U-JSN-V': dict(module='contracts.verus.json_transcode', min_verified=1, timeout=600,
                     props=['C03', 'C04']),
+    'U-TML-V': dict(module='contracts.verus.toml_output', min_verified=9, timeout=600,
+                    props=['C08', 'C12', 'C11', 'C10', 'C09']),
     'U-LIB-V': dict(module='contracts.verus.lib_translate', min_verified=9, timeout=600,
                     props=['C09', 'C03', 'C12']),
     'U-MAIN-V': dict(module='contracts.verus.cli_main', min_verified=11, timeout=600,
@@ -396,7 +398,7 @@ PROPERTIES = {
                      'char::encode_utf8 == utf8_bytes (assumed spec; RFC 3629 table) and vstd\'s prophetic Iterator model in U-ENC-V'],
         not_covered=['Encoder::from_reader peek-and-chain (io::copy under CBMC)', 'detection through yaml::input_matches (calls libyaml)']),
     'C08': dict(
-        explanation='TOML output state machine, view = (used, writer calls): ensure_one_use; second use refused from any history before the deserializer is touched and with zero writer calls; '
+        explanation='Verus U-TML-V on the verbatim src/toml.rs, for ANY history of calls: ensure_one_use / output_value / transcode_from / transcode_value / flush against the view (used, write_all log, other writes): a used output writes nothing and fails; an unused one sets the mark and hands the writer at most one buffer, exactly the text to_string_pretty returned for the root table (exactly one on Ok), never through `write`; non-table roots fail with NonTableRoot and no write; THEOREM lemma_at_most_one_document: along any sequence of such calls from new(w) the writer has received nothing or exactly one complete document. toml::input_matches: 2 MiB cutoff, non-UTF-8 => Ok(false), reader error => Err. Kani, real code against the real std within bounds: TOML output state machine, view = (used, writer calls): ensure_one_use; second use refused from any history before the deserializer is touched and with zero writer calls; '
                     'non-table roots (every variant, any payload) refused with zero writes; the use mark is set before deserialization; table root => exactly one write_all of exactly the '
                     'serializer\'s document, zero writes when the serializer refuses, writer failure surfaces.',
         assumptions=['toml::Value::{deserialize, try_from} reject null/unit and out-of-range integers', 'toml::to_string_pretty emits one valid document that reads back as the value'],
